@@ -31,7 +31,7 @@ def vals_of(v):
 def spec_cases(tier):
     """(inlined top formula, defs, top-with-refs, subs texts, top text, future?)"""
     past, fut = c09.base_formulas('quick')
-    limit = 4 if tier == 'quick' else 30
+    limit = 4 if tier == 'quick' else 12
     out = []
     for fs, future in ((past, False), (fut, True)):
         for f in fs:
@@ -227,7 +227,7 @@ def run_shard(shard, tier, res):
     case = {'formula': fj, 'defs': [[n, F.to_json(b)] for n, b in defs], 'spec': text, 'subspecs': list(subs), 'vars': sorted(F.fvars(f))}
     res.formulas += 1
     quick = tier == 'quick'
-    p = dict(values=(F.V3, F.V2), maxdepth=5 if quick else 8, max_transitions=300 if quick else 20000, validate='first')
+    p = dict(values=(F.V3, F.V2), maxdepth=5 if quick else 8, max_transitions=300 if quick else 4000, validate='first')
     forms = [('add', future)] + ([('add', True)] if not future and shard['i'] % 2 == 0 else []) + ([('multi', future)] if shard['i'] % 3 == 0 else [])
     for form, pastify in forms:
         m = GvModel(f, defs, subs, text, pastify, form)
